@@ -99,15 +99,18 @@ MCNext ==
            /\ (check => type # "set")
            /\ IF FaultMode /\ ncalls = 0 /\ hs.on
               THEN /\ ~check
-                   /\ \E f \in FaultSpace : \E kind \in {"pan", "stall"} :
-                        CallF(type, called, FALSE, {}, <<>>,
-                              IF kind = "pan" THEN {f} ELSE {},
-                              IF kind = "stall" THEN {f} ELSE {})
+                   /\ \E f \in FaultSpace : \E kind \in {"pan", "stall", "dead"} :
+                        CallFD(type, called, FALSE, {}, <<>>,
+                               IF kind = "pan" THEN {f} ELSE {},
+                               IF kind \in {"stall", "dead"} THEN {f} ELSE {},
+                               IF kind = "dead" THEN {f} ELSE {})
               ELSE Call(type, called, check, {}, <<>>)
   \/ \E v \in {w \in SUBSET NegCandidates : Cardinality(w) <= MaxVeto} : StepV(v)
   \/ Return
   \* a handler deadline was hit between two calls: the next call is refused
   \/ (UseFlags /\ ~FaultMode /\ ncalls = 1 /\ ~backoff /\ SetBackoff(TRUE))
+  \* the backoff that a handler deadline started is over: the probe call runs
+  \/ (FaultMode /\ backoff /\ SetBackoff(FALSE))
 
 MCSpec == MCInit /\ [][MCNext]_vars
 
@@ -115,7 +118,7 @@ MCSpec == MCInit /\ [][MCNext]_vars
 (* and the few observation fields later formulas read (prev/obs projections); *)
 (* the bulky observation records themselves are hidden from the fingerprint.  *)
 ObsProj(x) == IF x.kind = "tx" THEN <<x.accepted, x.mut, x.tb, x.ta, x.after>> ELSE <<x.kind>>
-MCView == <<sch, topo, hs, active, clock, qtick, queue, running, first, pan, stall, wedged, backoff,
+MCView == <<sch, topo, hs, active, clock, qtick, queue, running, first, pan, stall, dead, wedged, backoff,
             atCall, ncalls, verdict, ObsProj(obs), ObsProj(prev),
             IF firstTx = None THEN <<>> ELSE <<firstTx.after, firstTx.target>>>>
 
